@@ -122,25 +122,8 @@ impl Monitor for C02 {
 					}
 				}
 				// history: every 4th trip first attempts to read a truncated copy of the archive on the
-				// same thread (it must fail, whatever it does must not leak into the next read)
-				if (idx + ci) % 4 == 0 && slpp.len() > 2048 {
-					let cut = slpp.len() * 2 / 3;
-					// supervised: a reader that blocks on a truncated archive (C07's business) must not
-					// block this check; if it does, the sleeping thread is left behind and pre-reads stop
-					use std::sync::atomic::{AtomicBool, Ordering};
-					static PRE_READ_DISABLED: AtomicBool = AtomicBool::new(false);
-					if !PRE_READ_DISABLED.load(Ordering::Relaxed) {
-						let part = slpp[..cut].to_vec();
-						match crate::driver::watched(move || common::slpp_read(&part, false).is_ok(), || 0, std::time::Duration::from_secs(3), std::time::Duration::from_secs(8)) {
-							crate::driver::Watched::Done(false) => out.count("truncated_archive_rejected_before_real_read", 1),
-							crate::driver::Watched::Done(true) => out.count("truncated_archive_accepted(see C07)", 1),
-							_ => {
-								PRE_READ_DISABLED.store(true, Ordering::Relaxed);
-								out.count("truncated_pre_read_did_not_return(see C07)", 1);
-							}
-						}
-					}
-				}
+				// same thread (it must fail; whatever it does must not leak into the next read)
+				let with_history = (idx + ci) % 4 == 0 && slpp.len() > 2048;
 				// the archive is read through the instrumented source under a read schedule that
 				// rotates with the case: peppi::read takes any `Read`, short reads included
 				let sched = match (idx + ci + hash as usize) % 5 {
@@ -151,7 +134,40 @@ impl Monitor for C02 {
 					_ => crate::iofault::Policy::Fixed(8192),
 				};
 				out.class(format!("slpp-read-schedule={}", sched.name()));
-				let game2 = match common::slpp_read_src(crate::iofault::Src::new(std::sync::Arc::new(slpp.clone()), sched.clone()), false) {
+				// The truncated pre-read and the real read must run on the SAME thread (state left in a
+				// thread-local by the failed read is exactly what this is about). Both run on one
+				// supervised thread, so that a reader blocking on the truncated copy (C07's business)
+				// cannot block this check; if that happens the real read is repeated without history.
+				use std::sync::atomic::{AtomicBool, Ordering};
+				static PRE_READ_DISABLED: AtomicBool = AtomicBool::new(false);
+				let mut real: Option<Result<peppi::game::immutable::Game, common::Fail>> = None;
+				if with_history && !PRE_READ_DISABLED.load(Ordering::Relaxed) {
+					let (arch, sc) = (std::sync::Arc::new(slpp.clone()), sched.clone());
+					let cut = slpp.len() * 2 / 3;
+					match crate::driver::watched(
+						move || {
+							let pre_ok = common::slpp_read(&arch[..cut], false).is_ok();
+							(pre_ok, common::slpp_read_src(crate::iofault::Src::new(arch.clone(), sc), false))
+						},
+						|| 0,
+						std::time::Duration::from_secs(5),
+						std::time::Duration::from_secs(12),
+					) {
+						crate::driver::Watched::Done((pre_ok, r)) => {
+							out.count(if pre_ok { "truncated_archive_accepted(see C07)" } else { "truncated_archive_rejected_before_real_read" }, 1);
+							real = Some(r);
+						}
+						_ => {
+							PRE_READ_DISABLED.store(true, Ordering::Relaxed);
+							out.count("truncated_pre_read_did_not_return(see C07)", 1);
+						}
+					}
+				}
+				let real = match real {
+					Some(r) => r,
+					None => common::slpp_read_src(crate::iofault::Src::new(std::sync::Arc::new(slpp.clone()), sched.clone()), false),
+				};
+				let game2 = match real {
 					Ok(g) => g,
 					Err(f) => {
 						let class = if truth.frames.is_empty() { "zero-frames" } else if truth.metadata.is_none() { "no-metadata" } else { "other" };
